@@ -10,6 +10,7 @@
 import TealerModel.Lemmas.Dfs
 import TealerModel.Props.Common
 import TealerModel.Lemmas.Asserted
+import TealerModel.Props.Tie
 namespace Tealer.C01
 
 /-- a context that admits a fresh address in RekeyTo is not "validated" by rekey-to -/
@@ -137,6 +138,39 @@ theorem C01_solver_sound_fee (g : Graph) (bc : Nat → FeeValue) (pc : Nat → N
         ∃ j, i < j ∧ j < tr.length ∧ tr[j]! = r)) :
     ∀ i, i < tr.length → Fee.gamma (getMap r tr[i]! feeNull) fee :=
   solver_sound feeLaws g feeUniv bc pc hwf1 hwf2 r h fee tr ht1 hkeys hshape
+
+/-- the fields of the model's context that the translated predicates read -/
+def toGCtx (c : Ctx) : Generated.GCtx :=
+  { rekeytoAny := c.rekeyto.any, closetoAny := c.closeto.any, assetclosetoAny := c.assetcloseto.any, senderAny := c.sender.any,
+    types := c.types, maxFee := c.maxFee, maxFeeUnknown := c.maxFeeUnknown }
+
+/-- tie to today's source, detector predicates: the model's `checksField` of the eight field detectors is, for every
+    context, the nested `checks_field` function of the detector class as translated from its Python AST on this run
+    (enum numbers and MAX_TRANSACTION_COST read from /repo) -/
+theorem C01_tie_predicates (c : Ctx) :
+    checksField .rekeyTo c = Generated.checks_rekeyTo (toGCtx c) ∧
+    checksField .canCloseAccount c = Generated.checks_canCloseAccount (toGCtx c) ∧
+    checksField .canCloseAsset c = Generated.checks_canCloseAsset (toGCtx c) ∧
+    checksField .feeCheck c = Generated.checks_feeCheck (toGCtx c) ∧
+    checksField .isUpdatable c = Generated.checks_isUpdatable (toGCtx c) ∧
+    checksField .isDeletable c = Generated.checks_isDeletable (toGCtx c) ∧
+    checksField .anyoneCanUpdate c = Generated.checks_anyoneCanUpdate (toGCtx c) ∧
+    checksField .anyoneCanDelete c = Generated.checks_anyoneCanDelete (toGCtx c) := by
+  refine ⟨?_, ?_, ?_, ?_, ?_, ?_, ?_, ?_⟩ <;>
+    simp [checksField, toGCtx, Generated.checks_rekeyTo, Generated.checks_canCloseAccount, Generated.checks_canCloseAsset,
+      Generated.checks_feeCheck, Generated.checks_isUpdatable, Generated.checks_isDeletable, Generated.checks_anyoneCanUpdate,
+      Generated.checks_anyoneCanDelete, TT.Pay, TT.Axfer, TT.ApplUpdateApplication, TT.ApplDeleteApplication,
+      Generated.MAX_TRANSACTION_COST, MAX_TRANSACTION_COST]
+  -- the fee predicate: the two sides differ only in the Decidable instance of `≤`
+  congr 1
+
+/-- tie to today's source, `validated_in_block`: the model's function is the one translated on this run from
+    detectors/utils.py (own context first; then the context at the configured absolute index, or at every index the
+    transaction may have) -/
+theorem C01_tie_validated (chk : Ctx → Bool) (c : BlockCtx) (i : Option Nat) :
+    validatedInBlock chk c i = Generated.validatedInBlock chk c.self c.gtxn c.self.indices i := by
+  unfold validatedInBlock Generated.validatedInBlock
+  cases i <;> simp
 
 example : checksField .feeCheck { maxFee := 1000 } = true ∧ checksField .feeCheck {} = false := by decide
 
